@@ -327,8 +327,15 @@ def run_case(ctx, c):
     fu_data = payload(9, c["seed"] + 2)
     mark = len(rig.bus.log)
     poll_val = payload(n if n else 3, c["seed"] + 3)
+    def fu_download():
+        if c["seed"] % 3 == 0:
+            # the follow-up arrives as a stream of undeclared size (and another length than anything announced before)
+            with rig.sdo.open(VAL_OBJ[0], VAL_OBJ[1], "wb", size=None) as fp:
+                fp.write(fu_data)
+        else:
+            rig.sdo.download(VAL_OBJ[0], VAL_OBJ[1], fu_data)
     steps = [("upload", lambda: rig.sdo.upload(*FU_UP)),
-             ("download", lambda: rig.sdo.download(VAL_OBJ[0], VAL_OBJ[1], fu_data))]
+             ("download", fu_download)]
     if c["seed"] % 2:
         steps.reverse()                      # an upload in between can hide state left behind in the server
     if upload:
